@@ -575,11 +575,17 @@ def hoist_verdict(ctx, hprogs, hresults, native):
             stats["statements"] += 1
             stats["calls"] += len(want[k]) if k < len(want) else 0
             stats["index_assign"] += st[0] == "index"
+            stats[st[0]] = stats.get(st[0], 0) + 1
             if k >= len(got) or k >= len(want):
                 continue
             if got[k] != want[k]:
                 stats["reordered_vs_go"] += 1
-                sig = FIND_LHS if st[0] == "index" else FIND_HOIST
+                if not R.hstmt_in_finding_class(st):
+                    # Model/C02_Hoist.v says this statement keeps Go's order (C02_expression_order_preserved,
+                    # C02_args_order_preserved): not one of the recorded findings
+                    sig = "call-operands-reordered-outside-recorded-finding-class"
+                else:
+                    sig = FIND_LHS if st[0] == "index" else FIND_HOIST
                 ctx.violation(sig, "calls of one statement run in the order %r, Go's order is %r" % (got[k], want[k]),
                               dict(replay, statement=R.hstmt_coq(st), resumable=got[k], native=want[k]))
             vcases.append("{| hc_stmt := %s; hc_trace := [%s] |}" % (R.hstmt_coq(st), "; ".join(G.nc(x) for x in got[k])))
@@ -696,7 +702,7 @@ def correspond(ctx):
     pitems, run_probes = probes_prepare(ctx, masks, native_req)
     hprogs = []
     for i in range(scaled(3 if ctx.quick else 20)):
-        hp = R.hoist_program(ctx.rng("hoist-%d" % i), masks[:4], 14)
+        hp = R.hoist_program(ctx.rng("hoist-%d" % i), masks[:4], 16)
         hp["nat"] = native_req(dict(files=hp["files"]))
         hprogs.append(hp)
 
